@@ -3,6 +3,7 @@ CONSTANTS
   K = 2
   N = 1
   MaxFreeze = 1
+  MaxCancel = 0
   Twin = "no_gate"
   Record = FALSE
 INVARIANTS
